@@ -28,7 +28,7 @@ man = {
     "setup_cmd": "./check --setup",
     "hooks": {
         "guard": "verif",
-        "enable": "no source hooks: instrumentation is injected at check time with `go build -overlay` (harness files, rewritten copies of package tq, patched std os); the build tag `verif` is reserved and unused",
+        "enable": "no source hooks: instrumentation is injected at check time with `go build -overlay` (harness files, rewritten copies of packages tq and creds, patched std os); the build tag `verif` is reserved and unused",
         "baseline_off_cmd": "cd /repo && GIT_CONFIG_GLOBAL=$(mktemp) GOFLAGS=-mod=mod GOPROXY=off go test -mod=mod -json -vet=off -count=1 -timeout 25m ./...",
         "source_commits": [],
         "add_only": True,
